@@ -148,6 +148,7 @@ SCENARIOS = {
                                (0, 'B', 2, 'RES', 'A', 'C')], pre=[(0, 3)]),
     'hydrogens': dict(atoms=[(0, 'A', 1, 'UNK', 'A', 'C'), (0, 'A', 1, 'UNK', 'H1', 'H'), (0, 'A', 1, 'UNK', 'H2', 'H'),
                              (0, 'A', 2, 'UNK', 'O', 'O')], pre=[]),
+    'sulfur': dict(atoms=[(0, 'A', 1, 'UNK', 'S1', 'S'), (1, 'B', 2, 'UNK', 'S2', 'S'), (1, 'B', 3, 'UNK', 'C1', 'C')], pre=[]),
     'noradius': dict(atoms=[(0, 'A', 1, 'UNK', 'A', 'C'), (0, 'A', 1, 'UNK', 'M', 'X'), (0, 'A', 2, 'UNK', 'SE', 'Se')], pre=[]),
 }
 BLOCK_EDGES = [('A', 'B'), ('B', 'C')]
